@@ -4,6 +4,7 @@ From KV Require Import Base.Sx Base.Str Gen.Generated Model.Npy Model.StoreErr P
 From KV Require Import Model.Prune Model.LostMap Model.VfwDamage Proofs.VfwDamageP Proofs.NpyHdrP.
 From KV Require Proofs.C06P.
 From KV Require Import Proofs.PutHistoryP.
+From KV Require Import Model.S3Wire Proofs.S3WireP.
 Import ListNotations.
 Open Scope Z_scope.
 
@@ -483,3 +484,184 @@ Theorem C08_put_history_example :
   lookup (final_name [97]) (snd r) = Some [1; 2; 3].
 Proof. exact puts_history_example. Qed.
 Print Assumptions C08_put_history_example.
+
+(* ==== the S3 store at the level of one HTTP exchange (Model/S3Wire.v) ====
+   READ.  A response is (what the server HOLDS under the key: the first [held] bytes of a well-formed object, i.e. an
+   object truncated in the store at any byte; the Content-Length it ANNOUNCES: any number or none; what it DELIVERS:
+   the first [delivered] bytes of what it holds).  For every combination the read path returns data only when the
+   complete chunk arrived and the response is exactly the chunk; otherwise IncompleteRead.  The detector guards are
+   the ones translated from _DetectTruncation. *)
+Theorem C08_s3_response_never_data_unless_complete :
+  forall (parse_hdr : bytes -> option hdr) (print_hdr : hdr -> bytes),
+  (forall m, parse_hdr (print_hdr m) = Some m) ->
+  forall major nb m body held delivered cl,
+  wf_file print_hdr major nb m body -> existsb (Z.eqb major) s3_versions = true ->
+  s3_fetch parse_hdr detect_of_source s3_versions cl (response_stream (encode print_hdr major nb m body) held delivered cl) =
+  if complete (List.length (encode print_hdr major nb m body)) held delivered cl then Ok (m, body) else Err EIncomplete.
+Proof. exact s3_response_never_data_unless_complete. Qed.
+Print Assumptions C08_s3_response_never_data_unless_complete.
+
+Theorem C08_s3_response_never_data_unless_complete_concrete : forall pad major nb m body held delivered cl,
+  descr_ok (h_descr m) -> wf_file (print_hdr_c pad) major nb m body -> existsb (Z.eqb major) s3_versions = true ->
+  s3_fetch parse_hdr_c detect_of_source s3_versions cl
+           (response_stream (encode (print_hdr_c pad) major nb m body) held delivered cl) =
+  if complete (List.length (encode (print_hdr_c pad) major nb m body)) held delivered cl then Ok (m, body) else Err EIncomplete.
+Proof. exact s3_response_never_data_unless_complete_c. Qed.
+Print Assumptions C08_s3_response_never_data_unless_complete_concrete.
+
+(* through S3ChunkStore.get_chunk and the two absorbing getters: an incomplete response is S3ServerGlitch (a
+   ChunkNotFound) / default fill / placeholder -- never data; a complete one is the stored body *)
+Theorem C08_s3_incomplete_response_is_missing :
+  forall (parse_hdr : bytes -> option hdr) (print_hdr : hdr -> bytes),
+  (forall m, parse_hdr (print_hdr m) = Some m) ->
+  forall major nb m body held delivered cl want,
+  wf_file print_hdr major nb m body -> existsb (Z.eqb major) s3_versions = true ->
+  complete (List.length (encode print_hdr major nb m body)) held delivered cl = false ->
+  s3_get_response parse_hdr detect_of_source cl
+                  (response_stream (encode print_hdr major nb m body) held delivered cl) want = Raise K_S3ServerGlitch
+  /\ get_chunk_or_default SS3 (lowres_of_response parse_hdr detect_of_source cl
+                  (response_stream (encode print_hdr major nb m body) held delivered cl) want) = Ret DefaultFill
+  /\ get_chunk_or_placeholder SS3 (lowres_of_response parse_hdr detect_of_source cl
+                  (response_stream (encode print_hdr major nb m body) held delivered cl) want) = Ret Placeholder.
+Proof. exact s3_incomplete_response_is_glitch. Qed.
+Print Assumptions C08_s3_incomplete_response_is_missing.
+
+Theorem C08_s3_complete_response_is_data :
+  forall (parse_hdr : bytes -> option hdr) (print_hdr : hdr -> bytes),
+  (forall m, parse_hdr (print_hdr m) = Some m) ->
+  forall major nb m body held delivered cl,
+  wf_file print_hdr major nb m body -> existsb (Z.eqb major) s3_versions = true ->
+  complete (List.length (encode print_hdr major nb m body)) held delivered cl = true ->
+  s3_get_response parse_hdr detect_of_source cl
+                  (response_stream (encode print_hdr major nb m body) held delivered cl) m = Ret body.
+Proof. exact s3_complete_response_is_data. Qed.
+Print Assumptions C08_s3_complete_response_is_data.
+
+(* an object cut in the store at byte k (honest Content-Length k), the same object cut in flight at byte k (whole
+   Content-Length) and the older bytes-only model of the S3 read agree: IncompleteRead *)
+Theorem C08_s3_store_truncation_same_as_in_flight :
+  forall (parse_hdr : bytes -> option hdr) (print_hdr : hdr -> bytes),
+  (forall m, parse_hdr (print_hdr m) = Some m) ->
+  forall major nb m body k,
+  wf_file print_hdr major nb m body -> existsb (Z.eqb major) s3_versions = true ->
+  (k < List.length (encode print_hdr major nb m body))%nat ->
+  let full := encode print_hdr major nb m body in
+  s3_fetch parse_hdr detect_of_source s3_versions (Some k) (response_stream full k k (Some k)) = Err EIncomplete
+  /\ s3_fetch parse_hdr detect_of_source s3_versions (Some (List.length full))
+              (response_stream full (List.length full) k (Some (List.length full))) = Err EIncomplete
+  /\ s3_read_array parse_hdr (firstn k full) = Err EIncomplete.
+Proof. exact s3_store_truncation_same_as_in_flight. Qed.
+Print Assumptions C08_s3_store_truncation_same_as_in_flight.
+
+(* teeth: with the guard "the response still owes us something" (seeded change 7) an object that lost its last byte
+   in the store is returned as data; the statements of read_array / _read_chunk / _request / request / put_chunk /
+   mark_complete / create_array / _put_map_blocks are the modelled ones and the translated guards are the good ones *)
+Theorem C08_s3_owed_rule_refutes :
+  let n := List.length tiny_file in
+  exists body, s3_fetch parse_hdr_c (mkdetect RdEmpty RiOwed) s3_versions (Some (n - 1)%nat)
+                        (response_stream tiny_file (n - 1) (n - 1) (Some (n - 1)%nat)) = Ok (tiny_hdr, body)
+               /\ body <> [7; 9]
+  /\ s3_fetch parse_hdr_c good_detect s3_versions (Some (n - 1)%nat)
+              (response_stream tiny_file (n - 1) (n - 1) (Some (n - 1)%nat)) = Err EIncomplete
+  /\ s3_fetch parse_hdr_c (mkdetect RdEmpty RiOwed) s3_versions (Some n)
+              (response_stream tiny_file n (n - 1) (Some n)) = Err EIncomplete.
+Proof. exact owed_rule_refutes. Qed.
+Print Assumptions C08_s3_owed_rule_refutes.
+
+Theorem C08_s3_source_is_modelled :
+  detect_of_source = good_detect /\ s3_read_is_modelled = true /\ request_is_modelled = true /\ s3_put_is_modelled = true
+  /\ ignored_of "put_chunk" = Some [] /\ ignored_of "mark_complete" = Some [] /\ ignored_of "_create_bucket" = Some [409].
+Proof.
+  exact (conj detect_of_source_good (conj s3_read_src_is_modelled (conj request_src_is_modelled
+         (conj s3_put_src_is_modelled put_chunk_ignores_nothing)))).
+Qed.
+Print Assumptions C08_s3_source_is_modelled.
+
+(* WRITE.  _raise_for_status (translated range, chain and classes) raises for EVERY status in 400..599 that is not
+   ignored -- client and server errors alike -- and for nothing else; what it raises is a chunk-store error that the S3
+   error map passes unchanged *)
+Theorem C08_s3_every_error_status_raises : forall ign s,
+  (400 <= s < 600 -> memZ s ign = false ->
+   exists e, raise_for_status ign s = Some e /\ standard_errors (error_map SS3) e = e /\ isinst e K_ChunkStoreError = true)
+  /\ (forall e, raise_for_status ign s = Some e -> 400 <= s < 600 /\ memZ s ign = false).
+Proof. exact every_error_status_raises. Qed.
+Print Assumptions C08_s3_every_error_status_raises.
+
+(* request(): for every force list, every number of status retries, every ignored list and every sequence of server
+   answers all of which are refusals (an error status that is not ignored, or an attempt failing inside requests) the
+   request raises a chunk-store error; it returns only a status the server gave to an attempt actually made *)
+Theorem C08_s3_refused_request_raises : forall fl ign answers n,
+  Forall (refusal ign) answers ->
+  exists e, request_run fl n ign answers = Raise e /\ isinst e K_ChunkStoreError = true.
+Proof. exact refused_request_raises. Qed.
+Print Assumptions C08_s3_refused_request_raises.
+
+Theorem C08_s3_request_returns_only_accepted : forall fl ign answers n s,
+  request_run fl n ign answers = Ret s ->
+  In (AStatus s) (firstn (request_attempts fl n answers) answers) /\ ~ (400 <= s < 600 /\ memZ s ign = false).
+Proof. exact request_returns_only_accepted. Qed.
+Print Assumptions C08_s3_request_returns_only_accepted.
+
+(* "a failed put is reported rather than swallowed" on the S3 store, for every status class of refusals (GUARD: every
+   answer is a 4xx / 5xx status or an attempt failing inside requests -- see the _refuted statement below for what
+   lies outside): put_chunk raises, put_chunk_noraise returns that error object, nothing reached the store; success
+   only after a non-error answer *)
+Theorem C08_s3_failed_put_is_reported_partial : forall rc answers,
+  Forall (refusal []) answers ->
+  (exists e, s3_put_chunk rc true answers = Raise e /\ isinst e K_ChunkStoreError = true
+             /\ s3_put_chunk_noraise rc true answers = Ret (Some e))
+  /\ stored_after (forcelist rc) (status_retries rc) answers = false.
+Proof. exact s3_refused_put_is_reported. Qed.
+Print Assumptions C08_s3_failed_put_is_reported_partial.
+
+(* finding C08-F5g (open): a PUT answered 301 without a Location header (nothing for requests to follow) is not a 2xx,
+   yet success is reported and nothing is stored *)
+Theorem C08_s3_failed_put_is_reported_refuted :
+  exists s, accepted s = false /\ error_status s = false
+            /\ s3_put_chunk (default_retry 0) true [AStatus s] = Ret tt
+            /\ s3_put_chunk_noraise (default_retry 0) true [AStatus s] = Ret None
+            /\ stored_after (forcelist (default_retry 0)) (status_retries (default_retry 0)) [AStatus s] = false.
+Proof. exact failed_put_is_reported_refuted. Qed.
+Print Assumptions C08_s3_failed_put_is_reported_refuted.
+
+Theorem C08_s3_put_success_means_accepted : forall rc answers,
+  s3_put_chunk_noraise rc true answers = Ret None ->
+  exists s, In (AStatus s) (firstn (request_attempts (forcelist rc) (status_retries rc) answers) answers)
+            /\ ~ (400 <= s < 600).
+Proof. exact s3_put_success_means_accepted. Qed.
+Print Assumptions C08_s3_put_success_means_accepted.
+
+Theorem C08_s3_put_dask_array_reports : forall rc blocks res,
+  s3_put_dask_array rc blocks = Ret res ->
+  List.length res = List.length blocks /\
+  forall i a, nth_error blocks i = Some a -> Forall (refusal []) a ->
+    exists e, nth_error res i = Some (Some e) /\ isinst e K_ChunkStoreError = true.
+Proof. exact s3_put_dask_array_reports. Qed.
+Print Assumptions C08_s3_put_dask_array_reports.
+
+Theorem C08_s3_put_dask_array_completes : forall rc blocks,
+  Forall (fun a => Forall (refusal []) a \/ exists s, a = [AStatus s] /\ accepted s = true /\ memZ s (forcelist rc) = false) blocks ->
+  exists res, s3_put_dask_array rc blocks = Ret res.
+Proof. exact s3_put_dask_array_never_fails_on_refusals. Qed.
+Print Assumptions C08_s3_put_dask_array_completes.
+
+Theorem C08_s3_mark_complete_reports : forall rc bucket marker,
+  (Forall (refusal [409]) bucket ->
+   exists e, s3_mark_complete rc bucket marker = Raise e /\ isinst e K_ChunkStoreError = true)
+  /\ (forall s, request_run (forcelist rc) (status_retries rc) [409] bucket = Ret s -> Forall (refusal []) marker ->
+      exists e, s3_mark_complete rc bucket marker = Raise e /\ isinst e K_ChunkStoreError = true)
+  /\ (s3_mark_complete rc bucket marker = Ret tt ->
+      exists s, In (AStatus s) (firstn (request_attempts (forcelist rc) (status_retries rc) marker) marker)
+                /\ ~ (400 <= s < 600)).
+Proof. exact s3_mark_complete_reports. Qed.
+Print Assumptions C08_s3_mark_complete_reports.
+
+(* teeth / examples: a status test that only covers 4xx (seeded change 8) lets 507 through; the translated one does not *)
+Theorem C08_s3_client_errors_only_refutes :
+  raise_for_status_4xx_only [] 507 = None /\ raise_for_status [] 507 = Some K_StoreUnavailable
+  /\ s3_put_chunk_noraise (default_retry 0) true [AStatus 507] = Ret (Some K_StoreUnavailable)
+  /\ s3_put_chunk_noraise (default_retry 0) true [AStatus 503] = Ret (Some K_S3ServerGlitch)
+  /\ s3_put_chunk_noraise (default_retry 1) true [AStatus 503; AStatus 200] = Ret None
+  /\ s3_put_chunk_noraise (default_retry 1) true [AStatus 503; AStatus 507] = Ret (Some K_StoreUnavailable).
+Proof. exact client_errors_only_refutes. Qed.
+Print Assumptions C08_s3_client_errors_only_refutes.
